@@ -6,11 +6,11 @@ import gpos
 from ufo import build, err_kind, rat
 
 ID = "C06"
-PROOF_FILES = ["C06Parse", "C06Lists", "C06Classes", "C06Color", "C06Entries", "C06Inv", "C06Cov", "C06Exist", "C06Build", "C06Pipe", "C06Attach", "C06AttachBase", "C06AttachLig", "C06AttachMkmk", "C06Sound", "C06Complete", "C06Order", "C06"]
+PROOF_FILES = ["C06Parse", "C06Lists", "C06Classes", "C06Color", "C06Entries", "C06Inv", "C06Cov", "C06Exist", "C06Build", "C06Pipe", "C06Attach", "C06AttachBase", "C06AttachLig", "C06AttachMkmk", "C06Sound", "C06Complete", "C06Order", "C06", "C06Session"]
 THEOREM = ("Ufo2ft.C06.C06_offset / C06_candidate / C06_sound / C06_ligature / C06_complete / C06_holds / C06_error / "
            "groups_no_shared_mark / colorGraph_is_proper / firstAvailable_smallest / C06_parse_shape / C06_parse_mark / "
            "C06_parse_lig / C06_parse_null / C06_candidate_order_partial / C06_offset_general / C06_ctx_offset / C06_ctx_holds / "
-           "C06_frame / C06_plain_lookups_have_no_contextual_anchor / C06_ctx_split / C06_ctx_error / C06_modelX_error / C06_objectLibs_old_counterexample / C06_ctx_skip / C06_ctx_keyError_old_counterexample / C06_classes_injective / C06_collision_old_counterexample / C06_complete_general / C06_holds_general / C06_ctx_complete / C06_ctx_complete_holds / C06_ctx_ligature_last_wins_counterexample")
+           "C06_frame / C06_plain_lookups_have_no_contextual_anchor / C06_ctx_split / C06_ctx_error / C06_modelX_error / C06_objectLibs_old_counterexample / C06_ctx_skip / C06_ctx_keyError_old_counterexample / C06_classes_injective / C06_collision_old_counterexample / C06_complete_general / C06_holds_general / C06_ctx_complete / C06_ctx_complete_holds / C06_ctx_ligature_last_wins_counterexample / C06_session_history_free / C06_session_holds")
 N = {"quick": 400, "thorough": 12000}
 RULE = ("random 'anchor fonts': 2-10 glyphs in the roles base / ligature / mark / Indic-Khmer base+mark / odd, each with a random "
         "set of named anchors (plain, '_'-prefixed, numbered 'x_N' incl. gaps, key-less '_N', 'top.alt'-style, keys ending in a digit, "
@@ -24,10 +24,17 @@ RULE = ("random 'anchor fonts': 2-10 glyphs in the roles base / ligature / mark 
         "(glyph, glyph, component) triple, per feature (abvm, blwm, mark, mkmk) and over all four in lookup order (last wins).  The model's "
         "tables must be equal; `holds` (offset = qround(base) - qround(mark) of a matching source anchor pair; nothing else attached; every "
         "eligible pair attached) is evaluated on the observed tables.  non-trivial = at least one attachment and (a pair with two or more "
-        "candidate keys, or a ligature attachment, or a mark-to-mark attachment, or an abvm/blwm lookup).")
+        "candidate keys, or a ligature attachment, or a mark-to-mark attachment, or an abvm/blwm lookup).  WRITER-HISTORY stream (40 % of the cases, "
+        "second request of the case, tags reuse:* / prior:*): ONE MarkFeatureWriter instance first processes a PRIOR font - another master "
+        "of the family: the same glyphs with every anchor moved (shift), some glyphs missing (subset), an extra glyph (superset), the same "
+        "font (same) or a font whose write() raises (raises) - and then the case's font, either stand-alone (writer.write(font, feaFile) "
+        "without FeatureCompiler; the generated text is compiled with feaLib into a bare TTFont) or through compileTTF(featureWriters=[w]) "
+        "twice; kind fresh = stand-alone write with a new instance.  The model input is the case's font ALONE (no history), the tables must "
+        "be equal and `holds` is evaluated on what the reused instance generated; non-trivial there additionally needs a prior that differs.")
 ASSUMED = [
     "feaLib compiles `pos base|ligature|mark` statements and markClass definitions as written (one MarkArray per lookup from the classes it references; a later anchor for the same class in one statement overrides an earlier one) - exercised on every case through the compiled font",
     "the ordered glyph set, the GDEF glyph classes and the abvm / not-abvm glyph sets (Unicode script extensions) are inputs of the model; the harness computes them independently from the case description and fontTools.unicodedata",
+    "the writer instance carries no per-font state between runs (write() creates self.context and deletes it in `finally`): the model is a function of the current font and the options only - not proved about the Python object, but exercised by the writer-history stream (same instance after another master / after a failed write, stand-alone and under compileTTF)",
     "anchor names are ASCII (Python's \\d and str.isalpha are Unicode-aware); pre-existing mark/mkmk/abvm/blwm feature blocks in the feature file (hand-written markClass definitions ARE modelled: input `pre`; the theorems assume none), variable fonts and GSUB closure of the abvm glyph set are not modelled",
 ]
 
@@ -174,7 +181,37 @@ def gen(rng, n, mode):
                 "writerLib": rng.random() < 0.2}
         if rng.random() < 0.35:
             _add_contextual(rng, case, keys, search)
+        if rng.random() < 0.4:
+            _add_reuse(rng, case, keys)
         yield case
+
+
+def _add_reuse(rng, case, keys):
+    """writer-history stream: ONE MarkFeatureWriter instance first processes a PRIOR font (another master of the family: same
+    glyph names with all anchors moved / some glyphs missing / an extra glyph / the same font / a font whose write() raises)
+    and then the case's font; `mode` = "write" (stand-alone writer.write(font, feaFile), no compiler) or "compile"
+    (compileTTF(featureWriters=[w]) twice); kind "fresh" = stand-alone write with a new instance (no history)"""
+    kind = rng.choice(["shift", "shift", "shift", "subset", "superset", "same", "raises", "fresh"])
+    prior = []
+    if kind != "fresh":
+        for g in case["glyphs"]:
+            an = [[a[0], a[1], a[2]] if kind == "same" else _anchor(rng, a[0]) for a in g["anchors"]]
+            prior.append({"name": g["name"], "unicodes": list(g["unicodes"]), "anchors": an})
+        if kind == "subset" and len(prior) > 1:
+            for _ in range(rng.choice([1, 1, 2])):
+                if len(prior) > 1:
+                    prior.pop(rng.randrange(len(prior)))
+        if kind == "superset":
+            have = {g["name"] for g in prior}
+            extra = [(nm, role) for pool, role in ((BASES, "base"), (MARKS, "mark")) for nm, _ in pool if nm not in have]
+            for nm, role in rng.sample(extra, min(len(extra), rng.choice([1, 2]))):
+                an = [_anchor(rng, ("_" if role == "mark" else "") + k_) for k_ in keys if rng.random() < 0.8]
+                prior.insert(rng.randrange(len(prior) + 1), {"name": nm, "unicodes": [], "anchors": an})
+        if kind == "raises" and prior:
+            g = rng.choice(prior)
+            g["anchors"].append(_anchor(rng, rng.choice(BAD_NAMES)))
+    case["reuse"] = {"kind": kind, "mode": "write" if kind == "fresh" else rng.choice(["write", "write", "compile"]),
+                     "prior": prior}
 
 
 def _add_contextual(rng, case, keys, search):
@@ -345,6 +382,38 @@ def _observe(tt, order, K):
     return tabs, lig
 
 
+def _make_font(case, glyphs):
+    names = [g["name"] for g in glyphs]
+    order = [".notdef"] + names
+    sq = [[[0, 0, "line"], [100, 0, "line"], [100, 100, "line"]]]
+    sub = dict(case, glyphs=glyphs, ctxclass=[n for n in (case.get("ctxclass") or []) if n in names])
+    fd = {"glyphs": [{"name": ".notdef", "width": 500, "contours": sq}] +
+          [{"name": g["name"], "width": 500, "unicodes": g["unicodes"], "contours": sq,
+            "anchors": [[a[0], a[1], a[2]] for a in g["anchors"]]} for g in glyphs],
+          "glyphOrder": order, "features": _fea(sub), "lib": {}}
+    if case["gdef"] == "cats" and case["cats"]:
+        fd["lib"]["public.openTypeCategories"] = {k: v for k, v in case["cats"].items() if k in names}
+    font = build(fd, case["lib"])
+    _apply_object_libs(font, sub)
+    return font, order
+
+
+def _standalone_write(writer, font):
+    """the writer used without a FeatureCompiler: parse the font's features, writer.write(font, feaFile), return the text"""
+    from ufo2ft.featureCompiler import parseLayoutFeatures
+    feaFile = parseLayoutFeatures(font)
+    writer.write(font, feaFile)
+    return feaFile.asFea()
+
+
+def _compiler_text(font, writers):
+    """the feature text the writer generated, as the FeatureCompiler sees it"""
+    from ufo2ft.featureCompiler import FeatureCompiler
+    fc = FeatureCompiler(font, featureWriters=writers)
+    fc.setupFeatures()
+    return fc.features
+
+
 def run(case):
     from fontTools.ttLib import TTFont
     from ufo2ft import compileTTF
@@ -352,43 +421,80 @@ def run(case):
     import logging
     logging.getLogger("ufo2ft").setLevel(logging.CRITICAL)
     logging.getLogger("fontTools").setLevel(logging.CRITICAL)
-    names = [g["name"] for g in case["glyphs"]]
-    order = [".notdef"] + names
-    sq = [[[0, 0, "line"], [100, 0, "line"], [100, 100, "line"]]]
-    fd = {"glyphs": [{"name": ".notdef", "width": 500, "contours": sq}] +
-          [{"name": g["name"], "width": 500, "unicodes": g["unicodes"], "contours": sq,
-            "anchors": [[a[0], a[1], a[2]] for a in g["anchors"]]} for g in case["glyphs"]],
-          "glyphOrder": order, "features": _fea(case), "lib": {}}
-    if case["gdef"] == "cats" and case["cats"]:
-        fd["lib"]["public.openTypeCategories"] = dict(case["cats"])
     q = case["quant"]
     q = int(q) if float(q).is_integer() else q
+    font, order = _make_font(case, case["glyphs"])
     kw = {}
     if case.get("writerLib"):
-        fd["lib"]["com.github.googlei18n.ufo2ft.featureWriters"] = [
+        font.lib["com.github.googlei18n.ufo2ft.featureWriters"] = [
             {"class": "MarkFeatureWriter", "options": {"quantization": q, "groupMarkClasses": case["group"]}}]
     else:
         kw["featureWriters"] = [MarkFeatureWriter(quantization=q, groupMarkClasses=case["group"])]
-    font = build(fd, case["lib"])
-    _apply_object_libs(font, case)
     K = max([1] + [n for g in case["glyphs"] for a in g["anchors"] for n in [_trailing(a[0])] if n <= 6])
-    err = None
-    try:
+    abvm, notabvm = _abvm_sets(case, order)
+    inp = {"glyphs": [[".notdef", []]] + [[g["name"], [_anchor_input(g, a) for a in g["anchors"]]] for g in case["glyphs"]],
+           "gdef": _gdef_input(case), "quant": rat(q), "group": case["group"], "abvm": abvm, "notAbvm": notabvm, "K": K,
+           "pre": _pre_classes(case)}
+
+    def compiled():
         tt = compileTTF(font, **kw)
         buf = io.BytesIO(); tt.save(buf)
         tt = TTFont(io.BytesIO(buf.getvalue()))
+        return tt, lambda: _compiler_text(font, kw.get("featureWriters"))
+
+    reqs = [_request(case, inp, order, K, abvm, notabvm, compiled, [])]
+    ru = case.get("reuse")
+    if ru:
+        # the SAME font again, but produced by a writer instance with a history: the model (a function of this font alone) must
+        # still agree and the predicate (offsets from THIS font's anchors) must hold of what the reused instance generates
+        w = MarkFeatureWriter(quantization=q, groupMarkClasses=case["group"])
+        prior_err = None
+        if ru["kind"] != "fresh":
+            pfont, _ = _make_font(case, ru["prior"])
+            try:
+                if ru["mode"] == "write":
+                    _standalone_write(w, pfont)
+                else:
+                    compileTTF(pfont, featureWriters=[w])
+            except Exception as e:
+                prior_err = err_kind(e)
+        font2, _ = _make_font(case, case["glyphs"])
+
+        def reused():
+            if ru["mode"] == "write":
+                from fontTools.feaLib.builder import addOpenTypeFeaturesFromString
+                txt = _standalone_write(w, font2)
+                tt = TTFont()
+                tt.setGlyphOrder(list(order))
+                addOpenTypeFeaturesFromString(tt, txt)
+                return tt, lambda: txt
+            tt = compileTTF(font2, featureWriters=[w])
+            buf = io.BytesIO(); tt.save(buf)
+            tt = TTFont(io.BytesIO(buf.getvalue()))
+            return tt, lambda: _compiler_text(font2, [w])
+
+        differs = ru["kind"] not in ("fresh", "same")
+        extra = ["reuse:" + ru["mode"], "prior:" + ru["kind"]] + (["prior-raised:" + prior_err] if prior_err else [])
+        r2 = _request(case, inp, order, K, abvm, notabvm, reused, extra)
+        r2["nontrivial"] = r2["nontrivial"] and differs
+        reqs.append(r2)
+    return reqs
+
+
+def _request(case, inp, order, K, abvm, notabvm, produce, extra_tags):
+    err = None
+    try:
+        tt, txt = produce()
         tabs, lig = _observe(tt, order, K)
-        obs = {"err": None, "tables": tabs, "ligCount": lig, "ctx": _observe_ctx(tt, font, kw, order, K, case)}
+        obs = {"err": None, "tables": tabs, "ligCount": lig, "ctx": _observe_ctx(tt, txt, order, K, case)}
     except Exception as e:
         err = err_kind(e)
         obs = {"err": err}
         if err == "KeyError":
             obs["errMsg"] = str(e)[:80]
-    abvm, notabvm = _abvm_sets(case, order)
-    inp = {"glyphs": [[".notdef", []]] + [[g["name"], [_anchor_input(g, a) for a in g["anchors"]]] for g in case["glyphs"]],
-           "gdef": _gdef_input(case), "quant": rat(q), "group": case["group"], "abvm": abvm, "notAbvm": notabvm, "K": K,
-           "pre": _pre_classes(case)}
-    tags = ["gdef:" + case["gdef"], "group" if case["group"] else "single", "quant:%s" % q, case["lib"]]
+    q = case["quant"]
+    q = int(q) if float(q).is_integer() else q
+    tags = ["gdef:" + case["gdef"], "group" if case["group"] else "single", "quant:%s" % q, case["lib"]] + list(extra_tags)
     if case.get("premark"):
         tags.append("predefined-markClass")
     specs = [_spec(a) for g in case["glyphs"] for a in g["anchors"] if _spec(a) is not None]
@@ -441,7 +547,7 @@ def run(case):
         if obs["ctx"]["unparsed"]:
             tags.append("contextual:statement-outside-harness-grammar")
         nontrivial = bool(al) and (multi or "lig-attach" in tags or bool(tabs["mkmk"]) or bool(tabs["abvm"]) or bool(tabs["blwm"]))
-    return [{"op": "font", "in": inp, "obs": obs, "tags": tags, "nontrivial": nontrivial}]
+    return {"op": "font", "in": inp, "obs": obs, "tags": tags, "nontrivial": nontrivial}
 
 
 def _spec(a):
@@ -527,7 +633,7 @@ def _expand(back, inp, ahead, nested):
     return out
 
 
-def _observe_ctx(tt, font, kw, order, K, case):
+def _observe_ctx(tt, txt, order, K, case):
     """contextual part: the dispatch lookups as the writer wrote them (feature text), the attachment table of every
     referenced lookup in the compiled GPOS (via the chaining rules that refer to it), and whether the compiled chaining
     rules say what the text says"""
@@ -550,10 +656,7 @@ def _observe_ctx(tt, font, kw, order, K, case):
     if not any(feat_chain.values()):
         return out
     # the text the writer generated
-    from ufo2ft.featureCompiler import FeatureCompiler
-    fc = FeatureCompiler(font, featureWriters=kw.get("featureWriters"))
-    fc.setupFeatures()
-    txt = fc.features
+    txt = txt()
     classes = {}
     for m in re.finditer(r"markClass (\S+) <anchor [^>]*> @(\S+);", txt):
         classes.setdefault(m.group(2), set()).add(m.group(1))
@@ -836,6 +939,17 @@ def shrink(case):
             g2 = dict(g); g2["anchors"] = g["anchors"][:j] + g["anchors"][j + 1:]
             c = dict(case); c["glyphs"] = gl[:i] + [g2] + gl[i + 1:]
             yield c
+    ru = case.get("reuse")
+    if ru and ru["prior"]:
+        pr = ru["prior"]
+        for i in range(len(pr)):
+            c = dict(case); c["reuse"] = dict(ru, prior=pr[:i] + pr[i + 1:])
+            yield c
+        for i, g in enumerate(pr):
+            for j in range(len(g["anchors"])):
+                g2 = dict(g); g2["anchors"] = g["anchors"][:j] + g["anchors"][j + 1:]
+                c = dict(case); c["reuse"] = dict(ru, prior=pr[:i] + [g2] + pr[i + 1:])
+                yield c
     if case["gdef"] != "none":
         c = dict(case); c["gdef"] = "none"; c["cats"] = {}
         yield c
@@ -856,8 +970,13 @@ LEVEL_TEXT = ("Proved in Lean for ALL inputs (any number of glyphs/anchors/class
               "writer rejects exactly the fonts with a malformed anchor name (C06_error); greedy colouring is proper and total and no lookup "
               "group holds two classes sharing a mark glyph; parseAnchorName is characterised in both directions. Tied to /repo by compiling "
               "random anchor fonts and evaluating the compiled GPOS with harness/gpos.py for every (glyph, glyph, component) triple, per "
-              "feature and over all features.")
-LEVEL_NOTE = ("Hypothesis `wf`: glyph names distinct, every glyph in the abvm or the not-abvm set, no hand-written mark class, no object-lib "
+              "feature and over all features - also for the second and later fonts written by one writer instance (stand-alone write() and "
+              "compileTTF with a shared instance), where the same single-font model and predicates must hold.")
+LEVEL_NOTE = ("Writer re-use (one instance, several fonts) is covered by correspondence + predicate on observed output only: the model has "
+              "no instance state to carry over, so a memo that survives `del self.context` shows as a failing input of the unchanged "
+              "single-font predicates (offset not from this font's anchors / eligible pair unattached / attachment without source anchors); "
+              "in the stand-alone mode the GPOS is built by feaLib from the writer's text into a bare TTFont (in memory, no save/reload). "
+              "Hypothesis `wf`: glyph names distinct, every glyph in the abvm or the not-abvm set, no hand-written mark class, no object-lib "
               "data; anchor names are arbitrary - names that ast.makeFeaClassName reduces to the same class name get different classes "
               "(C06_classes_injective; the old merging is kept as C06_collision_old_counterexample). One finding is open: a key that "
               "feaLib cannot lex in a lookup name breaks mark-to-mark. WHICH candidate wins when several keys match (the property allows "
